@@ -315,6 +315,10 @@ def check_and_load_args(args, parser):
                     time.sleep(1)
                 logger.info("Overwriting the previous run")
                 time.sleep(1)
+            # stage markers of the previous run must not be taken for the state of the new run by a later --resume
+            for marker_pattern in ["*_lock", "*_collected", "*_processed"]:
+                for marker_file in glob.glob(os.path.join(args.output, "*", "aux", marker_pattern)):
+                    os.remove(marker_file)
         else:
             logger.warning("Output folder already exists, some files may be overwritten.")
 
